@@ -68,9 +68,11 @@ package fs
 //@   ensures chmod: cnt(Chmod) > old(cnt(Chmod)) ==> arg(Chmod, 0) == dst && arg(Chmod, 1) == stat.Mode()
 
 // absent -> nothing; directory -> error, nothing touched; anything else -> removed (no-follow)
+//@ effectdecl TargetEmptied(dst string)
 //@ func ensureEmptyFileTarget
 //@   property C15 C14
-//@   effects Lstat LstatRes Remove
+//@   effects Lstat LstatRes Remove TargetEmptied
+//@   posteffect TargetEmptied(dst) when result == nil
 //@   ensures inspect: cnt(Lstat) == old(cnt(Lstat)) + 1 && arg(Lstat, 0) == dst
 //@   ensures absent: arg(LstatRes, 1) != nil && os.IsNotExist(arg(LstatRes, 1)) ==> result == nil && cnt(Remove) == old(cnt(Remove))
 //@   ensures dir: arg(LstatRes, 1) == nil && arg(LstatRes, 0).IsDir() ==> result != nil && cnt(Remove) == old(cnt(Remove))
@@ -243,6 +245,12 @@ package fs
 //@   at call ensureEmptyFileTarget: selected_file: include && !fi.IsDir() && arg0 == target
 //@   at call copier.copyDirectory: dir: fi.IsDir() && arg7 == include
 //@   at call getLinkSource: regular: include && fi.Mode() & os.ModeType == 0
+// a non-directory is always created at a path that was just emptied (an existing entry is
+// unlinked, never rewritten in place: other names of its inode keep their content)
+//@   at call copyFile: target_emptied_first: cnt(TargetEmptied) > old(cnt(TargetEmptied)) && arg(TargetEmptied, 0) == target
+//@   at call os.Link: link_target_emptied_first: cnt(TargetEmptied) > old(cnt(TargetEmptied)) && arg(TargetEmptied, 0) == target
+//@   at call os.Symlink: symlink_target_emptied_first: cnt(TargetEmptied) > old(cnt(TargetEmptied)) && arg(TargetEmptied, 0) == target
+//@   at call copyDevice: special_target_emptied_first: cnt(TargetEmptied) > old(cnt(TargetEmptied)) && arg(TargetEmptied, 0) == target
 //@   at call copyFile: regular: include && fi.Mode() & os.ModeType == 0 && arg0 == src && arg1 == target
 //@   at call os.Link: hardlink: include && arg1 == target
 //@   at call os.Symlink: symlink_copied_not_followed: include && fi.Mode() & os.ModeSymlink == os.ModeSymlink && arg1 == target && cnt(Readlink) == old(cnt(Readlink)) + 1 && arg(Readlink, 0) == src
